@@ -157,3 +157,50 @@ func VerifC11OneofDecoder() {
 	}
 	verif.Reach("C11/oneof/decided")
 }
+
+// VerifC11TimeDecoder: arbitrary JSON for the three timestamp_format fields: the decoder
+// never panics; when it accepts an integer for a UNIX field the instant delivered is the
+// one that was sent; values of other categories are never accepted for a UNIX field.
+func VerifC11TimeDecoder() {
+	field := []string{"created", "updated", "day"}[verif.Choice("field", 3)]
+	var v []byte
+	kind, iv := "", int64(0)
+	switch verif.Choice("value.kind", 7) {
+	case 0:
+		iv = verif.IntRange("value.int", -62135596800, 253402300799)
+		v, kind = verif.JInt(iv), "int"
+	case 1:
+		v, kind = verif.JStr(verif.StringIn("value.str", 12, "0-9T:Z-")), "str"
+	case 2:
+		v, kind = verif.JRaw("1.5"), "fraction"
+	case 3:
+		v, kind = verif.JBool(verif.Bool("value.bool")), "bool"
+	case 4:
+		v, kind = verif.JNull(), "null"
+	case 5:
+		v, kind = verif.JArr(verif.JInt(1)), "arr"
+	default:
+		v, kind = verif.JObj("seconds", verif.JInt(1)), "obj"
+	}
+	var m TimeMsg
+	err := m.UnmarshalJSON(verif.JObj(field, v, "id", verif.JStr("x")))
+	verif.Show("kind", kind)
+	verif.Show("accepted", err == nil)
+	if err != nil {
+		verif.Reach("C11/time/rejected")
+		return
+	}
+	verif.Reach("C11/time/accepted")
+	switch {
+	case kind == "null":
+		verif.Assert("C11/time/null-leaves-default", m.Created == nil && m.Updated == nil && m.Day == nil)
+	case kind == "int" && field == "created":
+		verif.Assert("C11/time/accepted-seconds-are-delivered", m.Created != nil && verif.And(m.Created.Seconds == iv, m.Created.Nanos == 0))
+	case kind == "int" && field == "updated":
+		verif.Assert("C11/time/accepted-millis-are-delivered", m.Updated != nil && verif.And(m.Updated.Seconds == verif.FloorDiv(iv, 1000), int64(m.Updated.Nanos) == verif.MulC(iv-verif.MulC(verif.FloorDiv(iv, 1000), 1000), 1000000)))
+	case kind == "str":
+		// text: an RFC 3339 / date text accepted by the library parsers (trusted) or rejected
+	case field != "day" || kind != "str":
+		verif.Assert("C11/time/undecodable-value-never-accepted", false)
+	}
+}
